@@ -1045,6 +1045,14 @@ class _Tree(_ArithmeticMixin, _Base):
         else:
             min = self._to_key(min)
             bucket = self._findbucket(min)
+            if (
+                bucket is not None and
+                bucket._next is not None and
+                compare(bucket.maxKey(), min) < 0
+            ):
+                # min falls into the gap behind the last key of its leaf:
+                # the answer is the first key of the next leaf.
+                bucket = bucket._next
         if bucket is not None:
             return bucket.minKey(min)
         raise ValueError('empty tree')
